@@ -29,11 +29,11 @@
 (*                                                                                                          *)
 (* Design-level properties (checked by TLC on the model, and clause by clause on every recorded result of    *)
 (* the real code by Trace_Qualification):                                                                   *)
-(*   GradeConsistent, AnswerBacked, ConsensusHonoured                       (one flip)                       *)
-(*   OnlyAssigned, ReportLimit, RewardOnlyReported, GradeConsistent          (a population)                   *)
+(*   GradeConsistent, ReportHonoured, AnswerBacked, ConsensusHonoured       (one flip)                       *)
+(*   OnlyAssigned, ReportLimit, RewardOnlyReported, ReportersRewarded + the four above  (a population)        *)
 (*   NoAnswerNoPoint, ScoreInRange, PointJustified, QualifiedCounts, TestingFlips  (a candidate)             *)
 (*   Deterministic, PermutationInvariant                                     (variants of one evaluation)     *)
-(*   BookConsistent                                                          (the reporters book)             *)
+(*   BookConsistent, BookOperation                                           (the reporters book)             *)
 EXTENDS Integers, Sequences, FiniteSets
 
 \* ---- encodings: the byte values of types.Answer, types.Grade, ceremony.FlipStatus ------------------------
@@ -114,6 +114,8 @@ OneGradeConsistent(rep, rcs, u11, o) ==
     /\ o.gr \in GNone..GA /\ o.gs >= 0 /\ o.gs <= 8000000
     /\ u11 => o.gr \in {GNone, GReported}
     /\ ~u11 => (o.gs = 0 /\ o.gr # GNone)
+\* a flip reported by the required share of its report committee is graded Reported
+OneReportHonoured(rep, rcs, o) == ReportedRule(rep, rcs) => o.gr = GReported
 \* a status is given only with the required share of the answers
 OneAnswerBacked(nl, nr, nn, o) ==
     LET n == nl + nr + nn IN
@@ -122,11 +124,14 @@ OneAnswerBacked(nl, nr, nn, o) ==
     /\ o.st = WeaklyQualified => (o.an \in {Left, Right} /\ AtLeast(CountOf(o.an, nl, nr, nn), n, 66, 100))
     /\ o.st = QualifiedByNone => (o.an = None /\ AtLeast(nn, n, 66, 100))
     /\ o.st = NotQualified => o.an = None
-\* three quarters for one answer always qualify the flip for that answer
+\* three quarters for one answer always qualify the flip for that answer, 66 % weakly; 66 % of None answers qualify it "by none"
 OneConsensusHonoured(nl, nr, nn, o) ==
     LET n == nl + nr + nn IN
     /\ AtLeast(nl, n, 3, 4) => (o.st = Qualified /\ o.an = Left)
     /\ AtLeast(nr, n, 3, 4) => (o.st = Qualified /\ o.an = Right)
+    /\ (AtLeast(nl, n, 66, 100) /\ ~AtLeast(nl, n, 3, 4)) => (o.st = WeaklyQualified /\ o.an = Left)
+    /\ (AtLeast(nr, n, 66, 100) /\ ~AtLeast(nr, n, 3, 4)) => (o.st = WeaklyQualified /\ o.an = Right)
+    /\ AtLeast(nn, n, 66, 100) => (o.st = QualifiedByNone /\ o.an = None)
 
 (* ============================================================================================================ *)
 (* qualifyFlips(totalFlipsCount, candidates, flipsPerCandidate) over a population                               *)
@@ -158,18 +163,21 @@ GradeOf(c, f) == DecG(CellOf(c, f)[2])
 CandIx(P) == 1..Len(P.cands)
 Assigned(P, f) == {k \in CandIx(P) : Has(P.cands[k], f)}
 Senders(P, f)  == {k \in Assigned(P, f) : P.cands[k].s = 1}
-Voters(P, f)   == {k \in Assigned(P, f) : Counted(P.cands[k]) /\ NFl(P.cands[k]) > 0}
+\* who votes on flip f.  all = FALSE: what the code does (SilentWhenAllZero); all = TRUE: every candidate that sent a parsable
+\* payload votes, an all-zero one with None answers (the reading of the published rule without the quirk; used by the clauses
+\* only, which accept either reading)
+Voters(P, f, all) == {k \in Assigned(P, f) : NFl(P.cands[k]) > 0 /\ (IF all THEN P.cands[k].s = 1 ELSE Counted(P.cands[k]))}
 \* whose grades count for flip f, whose reports count for flip f
-GradeVoters(P, f) == IF P.u11 THEN {k \in Voters(P, f) : ~IgnoreGrades(P.cands[k])} ELSE Voters(P, f)
-Approvers(P, f) == {k \in GradeVoters(P, f) : GradeOf(P.cands[k], f) >= GD}
-Reporters(P, f) == {k \in GradeVoters(P, f) : GradeOf(P.cands[k], f) = GReported
-                                              /\ (P.u11 \/ ~IgnoreReports(P.cands[k]))}        \* ApprovesSurvive10
+GradeVoters(P, f, all) == IF P.u11 THEN {k \in Voters(P, f, all) : ~IgnoreGrades(P.cands[k])} ELSE Voters(P, f, all)
+Approvers(P, f, all) == {k \in GradeVoters(P, f, all) : GradeOf(P.cands[k], f) >= GD}
+Reporters(P, f, all) == {k \in GradeVoters(P, f, all) : GradeOf(P.cands[k], f) = GReported
+                                                   /\ (P.u11 \/ ~IgnoreReports(P.cands[k]))}        \* ApprovesSurvive10
 
-FlipInput(P, f) ==
-    LET V  == Voters(P, f)
-        A  == Approvers(P, f)
-        R  == Reporters(P, f)
-        G  == GradeVoters(P, f)
+FlipInput(P, f, all) ==
+    LET V  == Voters(P, f, all)
+        A  == Approvers(P, f, all)
+        R  == Reporters(P, f, all)
+        G  == GradeVoters(P, f, all)
         sc == [k \in CandIx(P) |-> IF k \in G THEN Score(GradeOf(P.cands[k], f)) ELSE 0]
         gv == [k \in CandIx(P) |-> IF k \in A THEN GradeOf(P.cands[k], f) ELSE 0]
     IN [l   |-> Cardinality({k \in V : AnsOf(P.cands[k], f) = Left}),
@@ -179,14 +187,14 @@ FlipInput(P, f) ==
         tg  |-> IF P.u11 THEN SumOver(sc, G) ELSE SumOver(gv, A),
         gcs |-> IF P.u11 THEN Cardinality(G) ELSE 0]
 
-FlipResult(P, f) == LET i == FlipInput(P, f) IN QualifyOneFlip(i.l, i.r, i.n, i.rep, i.tg, i.ap, i.rcs, i.gcs, P.u10, P.u11)
+FlipResult(P, f) == LET i == FlipInput(P, f, FALSE) IN QualifyOneFlip(i.l, i.r, i.n, i.rep, i.tg, i.ap, i.rcs, i.gcs, P.u10, P.u11)
 
 \* result of qualifyFlips: fq[f + 1] per flip, rw[f + 1] = the reporters the book keeps for flip f,
 \* wr[k] = wrong-grade reason of candidate k (-1: none recorded)
 QualifyFlips(P) ==
     LET fq == [x \in 1..P.nf |-> FlipResult(P, x - 1)] IN
     [fq |-> fq,
-     rw |-> [x \in 1..P.nf |-> IF fq[x].gr = GReported THEN Reporters(P, x - 1) ELSE {}],
+     rw |-> [x \in 1..P.nf |-> IF fq[x].gr = GReported THEN Reporters(P, x - 1, FALSE) ELSE {}],
      wr |-> [k \in CandIx(P) |-> IF P.u11 /\ Counted(P.cands[k]) /\ NFl(P.cands[k]) > 0 /\ IgnoreGrades(P.cands[k])
                                  THEN Reason(P.cands[k]) ELSE -1]]
 
@@ -204,7 +212,7 @@ PopOnlyAssigned(P, o) == \A x \in 1..P.nf : LET f == x - 1 IN
     /\ o.rw[x] \subseteq {k \in Senders(P, f) : GradeOf(P.cands[k], f) = GReported}
     /\ o.fq[x].st \in {Qualified, WeaklyQualified} =>
           (/\ o.fq[x].an \in {Left, Right}
-           /\ 2 * Cardinality({k \in Senders(P, f) : AnsOf(P.cands[k], f) = o.fq[x].an}) > Cardinality(Voters(P, f)))
+           /\ 2 * Cardinality({k \in Senders(P, f) : AnsOf(P.cands[k], f) = o.fq[x].an}) > Cardinality(Voters(P, f, FALSE)))
     /\ o.fq[x].gr = GReported => Cardinality({k \in Senders(P, f) : GradeOf(P.cands[k], f) = GReported}) >= 2
 \* a candidate that reports 34 % of its flips or more has all its reports ignored: they reward nobody and make no flip Reported
 WithinAllowance(P, f) == {k \in Senders(P, f) : GradeOf(P.cands[k], f) = GReported /\ ~IgnoreReports(P.cands[k])}
@@ -213,13 +221,17 @@ PopReportLimit(P, o) == \A x \in 1..P.nf : LET f == x - 1 IN
     /\ o.fq[x].gr = GReported => Cardinality(WithinAllowance(P, f)) >= 2
 \* the book rewards reporters of flips that ended up Reported only
 PopRewardOnlyReported(P, o) == \A x \in 1..P.nf : o.rw[x] # {} => o.fq[x].gr = GReported
-\* every flip's result is backed by the committee the population gives it
-PopGradeConsistent(P, o) == \A x \in 1..P.nf :
-    LET i == FlipInput(P, x - 1) IN OneGradeConsistent(i.rep, i.rcs, P.u11, o.fq[x])
-PopAnswerBacked(P, o) == \A x \in 1..P.nf :
-    LET i == FlipInput(P, x - 1) IN OneAnswerBacked(i.l, i.r, i.n, o.fq[x])
-PopConsensusHonoured(P, o) == \A x \in 1..P.nf :
-    LET i == FlipInput(P, x - 1) IN OneConsensusHonoured(i.l, i.r, i.n, o.fq[x])
+\* ... and then everybody whose report of that flip counted
+PopReportersRewarded(P, o) == \E all \in BOOLEAN : \A x \in 1..P.nf : o.fq[x].gr = GReported => Reporters(P, x - 1, all) \subseteq o.rw[x]
+\* every flip's result is backed by the committee the population gives it (under either reading of who votes)
+PopGradeConsistent(P, o) == \E all \in BOOLEAN : \A x \in 1..P.nf :
+    LET i == FlipInput(P, x - 1, all) IN OneGradeConsistent(i.rep, i.rcs, P.u11, o.fq[x])
+PopReportHonoured(P, o) == \E all \in BOOLEAN : \A x \in 1..P.nf :
+    LET i == FlipInput(P, x - 1, all) IN OneReportHonoured(i.rep, i.rcs, o.fq[x])
+PopAnswerBacked(P, o) == \E all \in BOOLEAN : \A x \in 1..P.nf :
+    LET i == FlipInput(P, x - 1, all) IN OneAnswerBacked(i.l, i.r, i.n, o.fq[x])
+PopConsensusHonoured(P, o) == \E all \in BOOLEAN : \A x \in 1..P.nf :
+    LET i == FlipInput(P, x - 1, all) IN OneConsensusHonoured(i.l, i.r, i.n, o.fq[x])
 
 (* ============================================================================================================ *)
 (* qualifyCandidate(candidate, flipQualificationMap, flipsToSolve, shortSession, notApprovedFlips)              *)
@@ -318,9 +330,16 @@ CandPointJustified(C, o) == (~o.fanil /\ Len(o.fa) = Len(C.fts)) => \A i \in 1..
        /\ o.fa[i][1] > 0 => o.fa[i][2] = 1
        /\ o.fa[i][2] = 1 => qual.st \in {Qualified, WeaklyQualified}
        /\ (C.short /\ qual.gr = GReported) => (o.fa[i][1] = 0 /\ o.fa[i][2] = 0)
-\* long session: every qualified flip of the list counts, whatever the candidate answered
-CandQualifiedCounts(C, o) == (Evaluated(C) /\ ~C.short) =>
-    o.q = Cardinality({i \in 1..Len(C.fts) : FqOf(C, C.fts[i]).st \in {Qualified, WeaklyQualified}})
+\* every qualified flip counts, whatever the candidate answered: all of the list in the long session; in the short session the
+\* regular ones that were not reported, except a not-approved flip the candidate left unanswered
+CandQualifiedCounts(C, o) ==
+    /\ (Evaluated(C) /\ ~C.short) =>
+          o.q = Cardinality({i \in 1..Len(C.fts) : FqOf(C, C.fts[i]).st \in {Qualified, WeaklyQualified}})
+    /\ (Evaluated(C) /\ C.short /\ ~o.fanil /\ Len(o.fa) = Len(C.fts)) =>
+          \A i \in 1..Min(ShortFlips, Len(C.fts)) :
+              LET qual == FqOf(C, C.fts[i]) IN
+              (/\ qual.st \in {Qualified, WeaklyQualified} /\ qual.gr # GReported
+               /\ ~(C.fts[i] \in C.na /\ DecA(C.ans[i][1]) = None)) => o.fa[i][2] = 1
 \* short session: extra flips count only as compensation for unanswered not-approved regular flips (at most two),
 \* and only when answered; an unanswered not-approved flip does not count against the candidate
 CandTestingFlips(C, o) == (C.short /\ Evaluated(C) /\ ~o.fanil /\ Len(o.fa) = Len(C.fts)) =>
